@@ -76,12 +76,19 @@ def gen_case(rng, thorough):
         wall_kind = rng.choice(["nan", "nan", "inf", "-inf"])
     nu = 3 * (2 ** (md + 1)) + 8
     us = [rng.randint(1, 1023) / 1024 for _ in range(nu)]
-    return dict(d=d, P=P, b=b, eps=eps, md=md, x=x, r=r, e=e, wall=wall, wall_kind=wall_kind, us=us)
+    int_x0 = rng.random() < 0.15
+    if int_x0:
+        x = [float(rng.randint(-3, 3)) for _ in range(d)]
+        if wall is not None:
+            wall = x[0] + rng.choice([0.25, 0.5, 1.0, 2.0])
+    return dict(d=d, P=P, b=b, eps=eps, md=md, x=x, r=r, e=e, wall=wall, wall_kind=wall_kind, us=us, int_x0=int_x0)
 
 
 def run_impl(cuqi, case, iface):
     target, calls = make_target(cuqi, case["P"], case["b"], case["wall"], case.get("wall_kind", "nan"))
     x0 = np.array(case["x"], dtype=float)
+    if case.get("int_x0"):
+        x0 = np.array([int(v) for v in case["x"]])     # integer-dtype start point (users do pass np.array([3, -2]))
     sc = Script([case["r"]], [case["e"]], case["us"])
     out = {}
     with quiet():
@@ -380,7 +387,7 @@ def run(ctx):
     outs = ctx.lean.drive([line_of(c, 1) for c, iface in jobs])   # both interfaces carry the finiteness guard (legacy since its repair)
     skipped = 0; hist = {"acc": 0, "rej": 0, "wall": 0, "depth": {}, "nodes_max": 0, "zero_u": 0}
     for (c, iface), mo in zip(jobs, outs):
-        desc = {k: c[k] for k in ("d", "eps", "md", "x", "r", "e", "wall", "wall_kind")}; desc["iface"] = iface
+        desc = {k: c[k] for k in ("d", "eps", "md", "x", "r", "e", "wall", "wall_kind")}; desc["iface"] = iface; desc["int_x0"] = bool(c.get("int_x0"))
         key = f"NUTS:{iface}:step"
         if mo in ("bad-op", "err-nonfinite-start"):
             ctx.note(f"model refused {desc}: {mo}"); continue
@@ -402,6 +409,14 @@ def run(ctx):
         if out.get("raised") or out["x"] is None:
             continue
         mx = [float(v) for v in pv(m_x)]
+        if out["nodes"] is not None and int(m_nodes) != int(out["nodes"]):
+            # The model's tree is proved to stop exactly at the first divergent leaf / first U-turning sub-tree
+            # (stop_at_first, buildTree_s_eq_good, loop_skeleton).  A different number of `_BuildTree` calls for the same
+            # start, momentum, slice level and draws means the implementation's trajectory did not stop there.
+            ctx.fail(key + ":stop-point", {**desc, "P": c["P"], "b": c["b"], "us_head": c["us"][:10]},
+                     {"tree_nodes_until_first_uturn_or_divergence": int(m_nodes)}, {"tree_nodes_built": int(out["nodes"])},
+                     "the trajectory does not stop at the first U-turn / divergence (more or fewer sub-trees built than the proven stopping rule allows)")
+            bad = True
         diff = None
         if not vclose(out["x"], mx, 1e-7):
             diff = ("next state", mx, out["x"].tolist())
